@@ -146,13 +146,13 @@ public:
 	}
 
 	posit(int initial_value)         { *this = initial_value; }
-	posit(long long initial_value)   { *this = (int)initial_value; }
+	posit(long long initial_value)   { *this = initial_value; }
 	posit(float initial_value)       { *this = float_assign(initial_value); }
 	posit(double initial_value)      { *this = float_assign(initial_value); }
 	posit(long double initial_value) { *this = float_assign(initial_value); }
 
 	// assignment operators for native types
-	posit& operator=(int rhs) noexcept {
+	posit& operator=(long long rhs) noexcept {
 		// only valid integers are -2, -1, 0, 1, 2
 		_bits = 0x00;
 		if (rhs <= -2) {
@@ -172,7 +172,7 @@ public:
 		}
 		return *this;
 	}
-	posit& operator=(long long rhs) noexcept     { return operator=((int)rhs); }
+	posit& operator=(int rhs) noexcept           { return operator=((long long)rhs); }
 	posit& operator=(float rhs) noexcept         { return float_assign(rhs); }
 	posit& operator=(double rhs) noexcept        { return float_assign(rhs); }
 	posit& operator=(long double rhs) noexcept   { return float_assign(rhs);  }
